@@ -66,7 +66,13 @@ def wallet_fingerprint(w):
     return repr(sorted((k, norm(v)) for k, v in vars(w).items() if k not in ('keypairs',)))
 
 
-def check_attempt(cs, head, wallet_keys_order, spent_record, used, amount, fee, wallet=None):
+def annotations_for(ann):
+    """ann: 0 = no key annotated, 1 / 2 = the second / first wallet key carries the annotation 'change' (as skepticoin-send
+    leaves it behind), 3 = both"""
+    return {0: {}, 1: {K[1].pub: 'change'}, 2: {K[0].pub: 'change'}, 3: {K[0].pub: 'change', K[1].pub: 'change'}}[ann or 0]
+
+
+def check_attempt(cs, head, wallet_keys_order, spent_record, used, amount, fee, wallet=None, ann=0):
     """one call of the real create_spend_transaction on a Wallet object carrying `spent_record`: a fresh one, or (wallet=)
     a deep copy of the long-lived object the caller carries along its path (then whatever else the implementation keeps on
     the object is carried along too; the copy after the attempt is returned in check_attempt.last_wallet).
@@ -78,7 +84,7 @@ def check_attempt(cs, head, wallet_keys_order, spent_record, used, amount, fee, 
     if wallet is not None:
         w = copy.deepcopy(wallet)
     else:
-        w = Wallet({k.pub: k.priv for k in wallet_keys_order}, [], {})
+        w = Wallet({k.pub: k.priv for k in wallet_keys_order}, [], dict(annotations_for(ann)))
         w.spent_transaction_outputs = {OutputReference(h, i) for (h, i) in spent_record}
     check_attempt.last_wallet = w
     before = set(spent_record)
@@ -141,7 +147,8 @@ def check_attempt(cs, head, wallet_keys_order, spent_record, used, amount, fee, 
 
 
 def explore_world(arg):
-    dist, foreign, reward, order, korder, max_attempts, max_confirms = arg
+    dist, foreign, reward, order, korder, max_attempts, max_confirms = arg[:7]
+    ann = arg[7] if len(arg) > 7 else 0
     from skepticoin.coinstate import CoinState
     ledger.setup()
     seams.deterministic_wallet_signing()
@@ -162,7 +169,7 @@ def explore_world(arg):
             avail_total = sum(wallet_outputs(node).values())
             for amount, fee in attempt_alphabet(avail_total, reward):
                 stats['transitions'] += 1
-                viol, tx, after = check_attempt(cs, node, keys, rec, used, amount, fee)
+                viol, tx, after = check_attempt(cs, node, keys, rec, used, amount, fee, ann=ann)
                 tr = trace + (('spend', amount, fee),)
                 for key, what in viol:
                     if len(bad) < 8:
@@ -363,6 +370,10 @@ def worlds(ctx):
                         if not ctx.quick and (foreign or reward) and len(dist[0]) + len(dist[1]) > 3:
                             continue
                         out.append((dist, foreign, reward, order, korder, 2 if ctx.quick else 3, 1))
+                        if not foreign and not reward and korder == 0 and order == 'asc' and len(dist[0]) and len(dist[1]):
+                            # the same world with wallet keys that carry the annotation 'change'
+                            for ann in (1, 2, 3):
+                                out.append((dist, foreign, reward, order, korder, 2 if ctx.quick else 3, 1, ann))
     return out
 
 
@@ -388,7 +399,8 @@ def run(ctx):
                 ctx.violation(key, "%s; world %s (longer history, delayed confirmations), operations %s" % (what, arg[1:4], list(tr)),
                               {'deep': [[list(arg[1][0]), list(arg[1][1])], arg[2], arg[3], arg[4]], 'trace': [list(t) for t in tr]})
                 continue
-            ctx.violation(key, "%s; world %s, attempts %s" % (what, arg[:5], list(tr)),
+            ctx.violation(key, "%s; world %s%s, attempts %s" % (what, arg[:5], (", annotation 'change' on wallet key(s) %s" % (
+                {1: 'K1', 2: 'K0', 3: 'K0 and K1'}[arg[7]])) if len(arg) > 7 and arg[7] else '', list(tr)),
                           {'world': [list(arg[0][0]), list(arg[0][1])] + list(arg[1:]), 'trace': [list(t) for t in tr]})
     ctx.cov.update({
         'states': tot['states'], 'transitions': tot['transitions'], 'traces_validated_against_impl': tot['transitions'],
@@ -414,6 +426,6 @@ def replay(data, ctx):
         st, bad, _ = deep_world(((tuple(d[0][0]), tuple(d[0][1])), d[1], d[2], d[3]))
         return [(k, what) for k, what, tr in bad]
     w = data['world']
-    arg = ((tuple(w[0]), tuple(w[1])), w[2], w[3], w[4], w[5], w[6], w[7])
+    arg = ((tuple(w[0]), tuple(w[1])), w[2], w[3], w[4], w[5], w[6], w[7]) + ((w[8],) if len(w) > 8 else ())
     st, bad, _ = explore_world(arg)
     return [(k, what) for k, what, tr in bad]
